@@ -8,6 +8,6 @@ export PATH="$HOME/.cargo/bin:$PATH"
 cd /verif/harness
 cargo build --release --offline 2>&1 | tail -3
 for t in c05 c06 c12 c20; do
-    cargo +nightly fuzz build "$t" >/dev/null 2>&1 || echo "note: fuzz target $t not pre-built (will be built by the thorough tier)"
+    RUSTFLAGS="--cfg sourcemap_verif" cargo +nightly fuzz build "$t" >/dev/null 2>&1 || echo "note: fuzz target $t not pre-built (will be built by the thorough tier)"
 done
 echo "setup done"
